@@ -82,6 +82,23 @@ def concrete(step, field, form):
     return [base]
 
 
+def _current(path, field):
+    """The (first) value the metafile holds for an editable field right now, as text; None if it has none."""
+    try:
+        with open(path, "rb") as fh:
+            rootn, _, _ = bdecode_strict(fh.read())
+        node = rootn.get(b"info").get(field.encode()) if field in ("comment", "source") else rootn.get(field.encode())
+        if node is None:
+            return None
+        if node.kind == "str":
+            return node.val.decode("utf-8")
+        if node.kind == "list" and node.val and node.val[0].kind == "str":
+            return node.val[0].val.decode("utf-8")
+    except Exception:
+        pass
+    return None
+
+
 def run_history(case):
     sbx = new_sandbox("ed")
     recs = []
@@ -164,6 +181,10 @@ def run_history(case):
                         argv += ["--" + f, ""]
                     continue
                 val = concrete(n, f, form)
+                if form == "k":         # the (first) value the field holds right now
+                    cur = _current(out, f)
+                    if cur is not None:
+                        val = cur if f in ("comment", "source") else [cur]
                 if f in ("comment", "source"):
                     want[key] = hexs(val)
                     args[f] = val
@@ -174,7 +195,7 @@ def run_history(case):
                 else:
                     want[key] = [hexs(x) for x in val]
                     # library callers may pass a plain string for a single value
-                    args[f] = val[0] if (form == "s1" and stp.get("strform")) else list(val)
+                    args[f] = val[0] if (form in ("s1", "k") and stp.get("strform")) else list(val)
                     argv += [{"announce": "--tracker", "url-list": "--web-seed", "httpseeds": "--http-seed"}[f]] + list(val)
             status = "ok"
             try:
